@@ -169,65 +169,109 @@ def run(chk):
         ph = v.fn("lwePhase")
         pps, _ = summ.pieces(v, ph, hooks=inl())
         psamp, pkey = [p["n"] for p in ph.params]
-        acc = [p for p in pps if p["kind"] == "local" and p["op"] in ("+=", "-=") and p["loops"]]
-        ret = [p for p in pps if p["kind"] == "return"]
-        bad_shape = [p for p in pps if p["kind"] in ("asm", "while", "unknown")]
-        if not acc or len(ret) != 1 or bad_shape:
-            chk.broken("lwePhase: accumulation/return not recognised")
+        from sa.pipeline import AnalysisBroken
         n_ph = sym.arrow(P(pkey, "params"), "n")
-        # return value = b + sum_k c_k * accumulator_k ; every accumulator starts at 0
-        accvars = {("var", A["name"], A["id"]) for A in acc}
-        rv = ret[0]["val"]
-        coef = {}
-        rest = rv
-        for av in accvars:
-            lin = sym.linear_in(rest, av)
-            if lin is None or sym.const_value(lin[0]) is None:
-                chk.broken("lwePhase: return value %s is not linear in the accumulator %s" % (sym.show(rv), av[1]))
-            coef[av] = sym.const_value(lin[0])
-            rest = lin[1]
-        inits = {("var", p["name"], p["id"]): p for p in pps if p["kind"] == "local" and p["op"] in ("=", "decl") and not p["loops"]}
-        problems = []
-        for av in accvars:
-            if av not in inits or inits[av]["val"] != ZERO:
-                problems.append("accumulator %s does not start at 0" % av[1])
-        if rest != P(psamp, "b"):
-            problems.append("returns %s: b does not enter with coefficient 1" % sym.show(rv))
-        terms = []
-        for A in acc:
-            lp = A["loops"][-1]
-            items = sym.poly_items(A["val"])
-            av = ("var", A["name"], A["id"])
-            if len(A["loops"]) != 1 or items is None or len(items) != 1 or len(items[0][0]) != 2:
-                chk.broken("lwePhase: accumulated value %s is not one product inside one loop" % sym.show(A["val"]))
-            (m1, m2), c = items[0]
-            fa = [x for x in (m1, m2) if x[0] == "idx" and x[1] == P(psamp, "a")]
-            fk = [x for x in (m1, m2) if x[0] == "idx" and x[1] == P(pkey, "key")]
-            if len(fa) != 1 or len(fk) != 1:
-                problems.append("accumulated product %s is not a[.]*key[.] (line %s)" % (sym.show(A["val"]), A["line"]))
-                continue
-            if fa[0][2] != fk[0][2]:
-                problems.append("product pairs a[%s] with key[%s] (line %s)" % (sym.show(fa[0][2]), sym.show(fk[0][2]), A["line"]))
-                continue
-            terms.append((lp, fa[0][2], c * (1 if A["op"] == "+=" else -1) * coef[av]))
-        sign_ph = None
-        detail = ""
-        if not problems:
-            from sa import coverage
-            status, detail = coverage.cover_1d(terms, n_ph)
-            if status == "unknown":
-                chk.broken("lwePhase: %s" % detail)
-            if status == "refuted":
-                problems.append(detail)
-            signs = {sg for _, _, sg in terms}
-            if signs == {-1}:
-                sign_ph = 1          # the phase removes +sum a*s
-            elif signs == {1}:
-                sign_ph = -1
-            elif not problems:
-                problems.append("products enter the phase with coefficients %s" % sorted(signs))
+
+        def phase_symbolic():
+            acc = [p for p in pps if p["kind"] == "local" and p["op"] in ("+=", "-=") and p["loops"]]
+            ret = [p for p in pps if p["kind"] == "return"]
+            bad_shape = [p for p in pps if p["kind"] in ("asm", "while", "unknown")]
+            if not acc or len(ret) != 1 or bad_shape:
+                chk.broken("lwePhase: accumulation/return not recognised")
+                # return value = b + sum_k c_k * accumulator_k ; every accumulator starts at 0
+            accvars = {("var", A["name"], A["id"]) for A in acc}
+            rv = ret[0]["val"]
+            coef = {}
+            rest = rv
+            for av in accvars:
+                lin = sym.linear_in(rest, av)
+                if lin is None or sym.const_value(lin[0]) is None:
+                    chk.broken("lwePhase: return value %s is not linear in the accumulator %s" % (sym.show(rv), av[1]))
+                coef[av] = sym.const_value(lin[0])
+                rest = lin[1]
+            inits = {("var", p["name"], p["id"]): p for p in pps if p["kind"] == "local" and p["op"] in ("=", "decl") and not p["loops"]}
+            problems = []
+            for av in accvars:
+                if av not in inits or inits[av]["val"] != ZERO:
+                    problems.append("accumulator %s does not start at 0" % av[1])
+            if rest != P(psamp, "b"):
+                problems.append("returns %s: b does not enter with coefficient 1" % sym.show(rv))
+            terms = []
+            for A in acc:
+                lp = A["loops"][-1]
+                items = sym.poly_items(A["val"])
+                av = ("var", A["name"], A["id"])
+                if len(A["loops"]) != 1 or items is None or len(items) != 1 or len(items[0][0]) != 2:
+                    chk.broken("lwePhase: accumulated value %s is not one product inside one loop" % sym.show(A["val"]))
+                (m1, m2), c = items[0]
+                fa = [x for x in (m1, m2) if x[0] == "idx" and x[1] == P(psamp, "a")]
+                fk = [x for x in (m1, m2) if x[0] == "idx" and x[1] == P(pkey, "key")]
+                if len(fa) != 1 or len(fk) != 1:
+                    problems.append("accumulated product %s is not a[.]*key[.] (line %s)" % (sym.show(A["val"]), A["line"]))
+                    continue
+                if fa[0][2] != fk[0][2]:
+                    problems.append("product pairs a[%s] with key[%s] (line %s)" % (sym.show(fa[0][2]), sym.show(fk[0][2]), A["line"]))
+                    continue
+                terms.append((lp, fa[0][2], c * (1 if A["op"] == "+=" else -1) * coef[av]))
+            sign_ph = None
+            detail = ""
+            if not problems:
+                from sa import coverage
+                status, detail = coverage.cover_1d(terms, n_ph)
+                if status == "unknown":
+                    chk.broken("lwePhase: %s" % detail)
+                if status == "refuted":
+                    problems.append(detail)
+                signs = {sg for _, _, sg in terms}
+                if signs == {-1}:
+                    sign_ph = 1          # the phase removes +sum a*s
+                elif signs == {1}:
+                    sign_ph = -1
+                elif not problems:
+                    problems.append("products enter the phase with coefficients %s" % sorted(signs))
+            return problems, "%d accumulation statement(s): %s; returns b - sum" % (len(acc), detail), sign_ph
+
+        def phase_enumerated(why):
+            # the accumulation has a shape the symbolic comparison does not know (several partial sums, a peeled tail, ...):
+            # the function is interpreted for n = 0..17 with the mask, the key and b as indeterminates, and the returned
+            # polynomial is compared with b - sum_{i<n} a[i]*key[i]
+            from sa import concrete, symexec
+            effs = symexec.run_function(v, ph, hooks=inl())[0]
+            for nv in range(0, 18):
+                st = concrete.PolyState()
+                got = []
+
+                def h(kind, x, env):
+                    if kind in ("local", "store"):
+                        st.assign(x, env)
+                    elif kind == "return":
+                        got.append(st.value(x["val"], env) if isinstance(x.get("val"), tuple) else None)
+                    elif kind == "cond":
+                        return None
+                    elif kind in ("call", "asm", "unknown", "alloc", "delete"):
+                        raise concrete.NotEvaluable("%s at line %s" % (kind, x.get("l")))
+                try:
+                    concrete.interpret(effs, {n_ph: nv}, h, on_segment=st.segment)
+                except concrete.NotEvaluable as e:
+                    chk.broken("lwePhase: %s; by enumeration: %s" % (why, e))
+                if len(got) != 1 or got[0] is None:
+                    chk.broken("lwePhase: %s; by enumeration: no polynomial return value for n = %d" % (why, nv))
+                A_, K_, B_ = sym.root_of(P(psamp, "a")), sym.root_of(P(pkey, "key")), None
+                want = {(("init", concrete.lvalue_location(P(psamp, "b"), {})),): 1}
+                for i_ in range(nv):
+                    m = tuple(sorted([("init", concrete.lvalue_location(sym.idx(P(psamp, "a"), I(i_)), {})),
+                                      ("init", concrete.lvalue_location(sym.idx(P(pkey, "key"), I(i_)), {}))], key=repr))
+                    want[m] = -1
+                g_ = {m: c for m, c in got[0].items() if c % (1 << 32)}
+                if {m: c % (1 << 32) for m, c in g_.items()} != {m: c % (1 << 32) for m, c in want.items()}:
+                    return ["for n = %d the function returns %s" % (nv, concrete.show_poly(g_, 6))], "", 1
+            return [], "interpreted for n = 0..17 over indeterminate mask, key and b: returns b - sum_{i<n} a[i]*key[i]", 1
+        try:
+            problems, okmsg_ph, sign_ph = phase_symbolic()
+        except AnalysisBroken as e:
+            problems, okmsg_ph, sign_ph = phase_enumerated(str(e))
         chk.require(not problems, "R1", "lwePhase = b - sum_{i<n} a[i]*key[i]", where=ph.where,
-                    ok="%d accumulation statement(s): %s; returns b - sum" % (len(acc), detail),
+                    ok=okmsg_ph,
                     bad="; ".join(problems), variant=vn)
         if sign_ph is None:
             sign_ph = 1
@@ -511,31 +555,8 @@ def run(chk):
         chk.require(okb, "R3", "TLweSample::b is component k of the mask array (b = a + k)", where=ctor[0].where,
                     ok="b = a + k", bad=[summ.show_piece(p) for p in bst], variant=vn, nontrivial=False)
         # ------------------------------------------------ R4 gate API
-        be = v.fn("bootsSymEncrypt")
-        bps, _ = summ.pieces(v, be, hooks=NOINLINE)
-        bres, bmsg, bkey = [p["n"] for p in be.params]
-        enc = calls(bps, "lweSymEncrypt")
-        eighth = ("call", "modSwitchToTorus32", (I(1), I(8)))
-        problems = []
-        if len(enc) != 1:
-            problems.append("no single lweSymEncrypt")
-        else:
-            mu = enc[0]["args"][1]
-            want = ("cond", sym.binop("!=", sym.sym(bmsg), ZERO), eighth, sym.neg(eighth))
-            if mu != want and mu != ("cond", sym.sym(bmsg), eighth, sym.neg(eighth)):
-                problems.append("plaintext is %s, expected message ? +1/8 : -1/8" % sym.show(mu))
-            if enc[0]["args"][3] != P(bkey, "lwe_key"):
-                problems.append("encrypted under %s" % sym.show(enc[0]["args"][3]))
-        chk.require(not problems, "R4", "bootsSymEncrypt encodes a bit as +-1/8 under the LWE key", where=be.where,
-                    ok="lweSymEncrypt(result, message ? 1/8 : -1/8, alpha, key->lwe_key)", bad="; ".join(problems), variant=vn)
-        bd = v.fn("bootsSymDecrypt")
-        bdp, _ = summ.pieces(v, bd, hooks=NOINLINE)
-        dsamp, dkey = [p["n"] for p in bd.params]
-        r = [p for p in bdp if p["kind"] == "return"]
-        phase = ("call", "lwePhase", (sym.sym(dsamp), P(dkey, "lwe_key")))
-        okd = len(r) == 1 and r[0]["val"] in (("cond", sym.binop(">", phase, ZERO), I(1), ZERO), sym.binop(">", phase, ZERO))
-        chk.require(okd, "R4", "bootsSymDecrypt returns 1 iff the phase is positive", where=bd.where, ok="lwePhase(sample, key->lwe_key) > 0 ? 1 : 0",
-                    bad=sym.show(r[0]["val"]) if r else "no return", variant=vn)
+        from rules import c01
+        c01.gate_encoding(chk, v, vn, "R4")
         # ------------------------------------------------ R5 trivial samples
         for name, how in (("tLweNoiselessTrivial", "poly"), ("tLweNoiselessTrivialT", "const")):
             f = v.fn(name)
